@@ -127,6 +127,25 @@ def root_causes(case: Any, orders: List[List[int]], dumps: List[Any]) -> Optiona
     return out
 
 
+def within_registry_theorem(case: Any) -> bool:
+    """The hypotheses of C06_registry_order_free, read off the case: distinct qualified names, no re-exporting import."""
+    fn = P.fullnames(case)
+    keys = list(fn)
+    for mi, m in enumerate(case['mods']):
+        allm = P.module_all(m) or []
+        for st in m['stmts']:
+            if st[0] in ('class', 'def', 'var'):
+                keys.append(fn[mi] + '.' + st[1])
+                if st[0] == 'class':
+                    keys.extend(fn[mi] + '.' + st[1] + '.' + mem[1] for mem in st[4])
+            elif st[0] == 'from':
+                if any((a if a else o) in allm for o, a in st[3]):
+                    return False
+            elif st[0] == 'star' and allm:
+                return False
+    return len(keys) == len(set(keys))
+
+
 def gen_random(rng: random.Random) -> Any:
     """random project in which every object has at most one re-exporter (the quantifier of C06/C07)"""
     while True:
@@ -158,14 +177,19 @@ class Check(PropertyCheck):
     assumptions = ['the schedule is a permutation of the project\'s modules; every module parses',
                    'theorems: one binding per name per scope and distinct qualified names (C06_registry_order_free), see Props/C06.v']
     manifest = {
-        'text': ('Model/Project.v is the module work-list machine with the registry, per-scope alias maps, on-demand processing of '
-                 'imports, visit-time base resolution, __all__ re-exports (reparent) and the second base-resolution pass. Theorems for '
-                 'ALL projects and ALL schedules within the stated hypotheses (see Props/C06.v); refuted witnesses for the order '
-                 'dependences pydoctor really has (duplicate name inside an import cycle; stale name of a re-exported object imported '
-                 'from its defining module; re-export / star import inside an import cycle). Tie: per-schedule diff of the model dump '
-                 'with the real System on every reachable schedule of generated projects; oracle: dumps of the real tool under two '
-                 'schedules are equal.'),
-        'note': 'Partial: positive theorems carry "one binding per name per scope"; see the _partial / _refuted names in Props/C06.v.',
+        'text': ('Model/Project.v: the module work-list machine (explicit frame stack = Python\'s call stack of processModule -> '
+                 'getProcessedModule) with the registry, per-scope alias maps, visit-time base resolution, __all__ re-exports '
+                 '(reparent) and the second base-resolution pass. PROVED for ALL projects and ALL schedules: the final registry is the '
+                 'one the source text defines, hence keys, class, kind and docstring of every object are order independent '
+                 '(C06_registry_static, C06_registry_order_free; hypotheses: distinct qualified names, no re-exporting import; import '
+                 'cycles allowed; includes termination and no failing assert). REFUTED with vm_compute witnesses (known findings): '
+                 'duplicate name inside an import cycle, stale name of a re-exported object imported from its defining module, bases of '
+                 'a moved class re-resolved in the re-exporter\'s scope, re-export / star import inside an import cycle. Tie: per-'
+                 'schedule diff of the model dump with the real System on EVERY reachable schedule of generated projects; oracle: dumps '
+                 'of the real tool under two schedules are equal (with import cycles: the class hierarchy).'),
+        'note': ('Partial: order independence of resolved bases / linearisations is not proved (sampled by the oracle on all schedules '
+                 'of small projects); positive theorems carry "one binding per name per scope" and "no re-export" (one re-export: '
+                 'C07_moved_once). Five genuine order dependences of pydoctor are recorded as known findings.'),
         'technique': 'Coq proof (step invariants of an explicit-stack machine) + exhaustive-schedule model/implementation correspondence',
     }
 
@@ -231,6 +255,8 @@ class Check(PropertyCheck):
                     self.count('feature_' + kf)
             if P.reexports(c):
                 self.count('feature_reexport')
+            if within_registry_theorem(c):
+                self.count('within_hypotheses_of_C06_registry_order_free')
             xbase = any(st[0] == 'class' and st[3] for m in c['mods'] for st in m['stmts'])
             if len(c['mods']) >= 2 and xbase and len(orders) >= 2:
                 nt.add(json.dumps([c['mods'], c.get('queries')], sort_keys=True))
